@@ -71,8 +71,16 @@ def plan(tier):
         plans = [(1, 2, (1, 2, 3)), (0, 1, (2,)), (2, 1, (2,)), (3, 1, (2,))]
     else:
         plans = [(1, 3, (0, 1, 2, 3)), (0, 2, (1, 2, 3)), (2, 2, (1, 2, 3)), (3, 2, (1, 2, 3))]
+    extra = []
+    if tier == 'quick':
+        # targeted length-3 skeletons: (kill something, anything, subscribe again) — id/slot reuse after a removal
+        for npre, seq, throws in skeletons(3, (2,)):
+            if len(seq) == 3 and seq[0][0] in (1, 2, 5) and seq[2][0] == 0 and not throws:
+                extra.append((1, npre, seq, throws))
     for sig, maxlen, npres in plans:
-        for npre, seq, throws in skeletons(maxlen, npres):
+        extra += [(sig, npre, seq, throws) for npre, seq, throws in skeletons(maxlen, npres)]
+    for sig, npre, seq, throws in extra:
+        if True:
             for round0 in ((0, 1) if len(seq) == 1 and tier != 'quick' else (0,)):
                 cube = []
                 for i in range(3):
